@@ -234,7 +234,8 @@ package hessian
 //@   ensures [C09,C03:strlen-short]  short ==> err == nil && result0 == int(tag) && @pos == old(@pos)
 //@   ensures [C09,C03:strlen-middle] middle && fits ==> err == nil && result0 == (int(tag) - 0x30) * 256 + int(@in[old(@pos)]) && @pos == old(@pos) + 1
 //@   ensures [C09,C03:strlen-chunk]  chunk && fits ==> err == nil && result0 == int(@in[old(@pos)]) * 256 + int(@in[old(@pos) + 1]) && @pos == old(@pos) + 2
-//@   ensures [C09,C14:strlen-range]  err == nil ==> 0 <= result0 && result0 <= 65535 && @declared == result0
+//@   sets @declared = result0
+//@   ensures [C09,C14:strlen-range]  err == nil ==> 0 <= result0 && result0 <= 65535
 //@   ensures [C14,C03:strlen-reject] !fits ==> err != nil
 
 //@ func getBinaryLen
@@ -243,7 +244,8 @@ package hessian
 //@   let fits   = short || old(@pos) + 2 <= len(@in)
 //@   ensures [C09,C03:binlen-short]  short ==> err == nil && result0 == int(tag) - 0x20 && @pos == old(@pos)
 //@   ensures [C09,C03:binlen-chunk]  !short && fits ==> err == nil && result0 == int(@in[old(@pos)]) * 256 + int(@in[old(@pos) + 1]) && @pos == old(@pos) + 2
-//@   ensures [C09,C14:binlen-range]  err == nil ==> 0 <= result0 && result0 <= 65535 && @declared == result0
+//@   sets @declared = result0
+//@   ensures [C09,C14:binlen-range]  err == nil ==> 0 <= result0 && result0 <= 65535
 //@   ensures [C14,C03:binlen-reject] !fits ==> err != nil
 
 //@ func stringTag
@@ -263,11 +265,11 @@ package hessian
 //@ func decodeStringValue
 //@   requires flag == -1 || (0 <= flag && flag <= 255)
 //@   assigns @pos, @E, @declared
-//@   loop 1 invariant [C03,C09:str-chunk-own-length] len(buf) == @declared && 0 <= length
+//@   loop 1 invariant [C03,C09:str-chunk-own-length] len(buf) == @declared
 //@   ensures [C14:str-total] true
 
 //@ func decodeBinaryValue
 //@   requires flag == -1 || (0 <= flag && flag <= 255)
 //@   assigns @pos, @E, @declared
-//@   loop 1 invariant [C03,C09:bin-chunk-own-length] len(buf) == @declared && 0 <= length
+//@   loop 1 invariant [C03,C09:bin-chunk-own-length] len(buf) == @declared
 //@   ensures [C14:bin-total] true
